@@ -11,6 +11,10 @@ from . import flow, cha as cha_mod
 from .facts import pat_binds, ty_adt
 
 
+# value-side field name -> target-side field name where the two structs differ
+FIELD_RENAME = {'lookup_zs_next': 'next_lookup_zs'}
+
+
 def _paths(v, root):
     out = set()
     for a in flow.flat(v):
@@ -105,6 +109,49 @@ def check(F, ck, rule, entry_q='WitnessWrite::set_proof_with_pis_target', floor=
               'SURPLUS ELEMENTS DROPPED: %s pairs targets with proof values (%s) by a truncating zip and no Err-returning guard rejects a value sequence longer than the targets: '
               'a proof that the native verifier rejects for its shape is copied as if well-formed and accepted in-circuit' % (e.fn.qual, ', '.join(sorted(x[2:] for x in V))[:200]), e.loc())
     ck.floor(rule, 'target/value pairings in the witness-assignment closure', n, floor)
+    # concatenations: when several proof fields are flattened into one sequence before being paired with the (equally flattened)
+    # targets, only the TOTAL length is compared: an element can move from the end of one field to the start of the next
+    # (natively rejected: each field has its own required length) without the assignment noticing.  Each concatenated field needs
+    # its own length equality between target and value.
+    cat = {}
+    for e in fl.events:
+        if e.kind != 'call' or e.name not in ('zip', 'zip_eq'):
+            continue
+        if e.node.get('k') == 'MCall':
+            ops = [e.recv] + list(e.args)
+        else:
+            ops = list(e.args)
+        for v in ops:
+            V = _minimal(_paths(v, vroot))
+            fields = sorted({x for x in V})
+            parents = {}
+            for x in fields:
+                # group sibling fields by their parent path: p:root.a.b.<field>[]...
+                body = x[2:]
+                segs = body.split('.')
+                for k in range(len(segs) - 1, 0, -1):
+                    if not segs[k].endswith('[]') or True:
+                        par = '.'.join(segs[:k])
+                        parents.setdefault(par, set()).add(segs[k].split('[')[0])
+                        break
+            for par, fs in parents.items():
+                if len(fs) >= 2:
+                    cat.setdefault(par, set()).update(fs)
+    for par, fs in sorted(cat.items()):
+        # the target-side parent has the same field names
+        for f in sorted(fs):
+            okf = False
+            for g in guards:
+                for rel, lp, rp, weak, _ln, _rn, _fn in g.cmps:
+                    if weak or rel != 'Eq':
+                        continue
+                    both = lp | rp
+                    tf = FIELD_RENAME.get(f, f)
+                    if any(a.startswith('p:' + vroot) and a.split('[')[0].endswith('.' + f) for a in both) and any(a.startswith('p:' + troot) and a.split('[')[0].endswith(('.' + f, '.' + tf)) for a in both):
+                        okf = True
+            ck.ob(rule, 'concat:%s.%s' % (par.split('.', 1)[-1] if '.' in par else par, f), okf, 'own length equality for this concatenated field' if okf else
+                  'FIELD BOUNDARY LOST: %s.%s is flattened together with its sibling fields before being paired with the targets, and no guard compares its own length with its target\'s: moving an element across the boundary of two '
+                  'fields gives a proof the native verifier rejects (wrong field lengths) but the same assignment' % (par, f), '%s:%d' % (fn.file, fn.line))
     # optional parts: `if let (Some(t), Some(v)) = (&target.x, &proof.x) { set(t, v) }` drops a value whose target is absent
     from .facts import walk
     fns = {}
